@@ -218,10 +218,13 @@ func (d *Disk) lastEntry() (uint64, uint64) {
 // latestCfg returns the highest-index configuration entry in the log
 // (index, cfg) or (0, "").
 func (d *Disk) latestLogCfg() (uint64, string) {
+	// entries at or below a complete snapshot are superseded by the snapshot's
+	// own configuration (a stale, never truncated entry may still sit there)
+	S := d.maxSnapIndex()
 	var bi uint64
 	var bc string
 	for i, p := range d.cfgs {
-		if i > bi {
+		if i > bi && i > S {
 			bi, bc = i, p
 		}
 	}
